@@ -364,6 +364,49 @@ func ruleSkipOrder(p *Prog, r *RuleResult) {
 		if !isSkipCount(bo.X) && !isSkipCount(bo.Y) {
 			return
 		}
+		// the count must be born after the Wait of the batch it describes: a phi of its family that sits before the
+		// Wait is carried around the batch loop (count of an earlier, fully skipped batch added to this one)
+		var waitBlk *ssa.BasicBlock
+		eachInstr(pb, func(j ssa.Instruction) {
+			if c := callOf(j); c != nil && isMethodNamed(c, "sync", "WaitGroup", "Wait") {
+				waitBlk = j.Block()
+			}
+		})
+		if waitBlk != nil {
+			fam := map[ssa.Value]bool{}
+			var grow func(v ssa.Value, d int)
+			grow = func(v ssa.Value, d int) {
+				if v == nil || fam[v] || d > 10 {
+					return
+				}
+				switch x := v.(type) {
+				case *ssa.Phi:
+					fam[v] = true
+					for _, e := range x.Edges {
+						grow(e, d+1)
+					}
+				case *ssa.BinOp:
+					if x.Op == token.ADD {
+						fam[v] = true
+						grow(x.X, d+1)
+					}
+				}
+			}
+			if isSkipCount(bo.X) {
+				grow(bo.X, 0)
+			}
+			if isSkipCount(bo.Y) {
+				grow(bo.Y, 0)
+			}
+			for v := range fam {
+				if ph, ok := v.(*ssa.Phi); ok && ph.Parent() == pb && isSkipCountFamily(ph, fam) {
+					if !(waitBlk.Dominates(ph.Block()) && waitBlk != ph.Block()) {
+						r.fail(pname+"#skip-count-carried", p.IPos(bo), "the count of skipped blocks that decides whether the batch is repeated is not reset for each batch: after one fully skipped batch the comparison with the task count is off, so the loop ends with no data (reported as end of stream), keeps going over delivered data, or never ends")
+						break
+					}
+				}
+			}
+		}
 		// follow the comparison to the If it decides (directly, through !, or through a loop-flag phi)
 		var visit func(v ssa.Value, pos bool, d int)
 		seen := map[ssa.Value]bool{}
@@ -907,4 +950,14 @@ func skipPredicateRelation(p *Prog, a *decodeAnatomy, key string) (token.Token, 
 		}
 	}
 	return token.ILLEGAL, false
+}
+
+// isSkipCountFamily: ph is one of the phis through which a +1 counter circulates (it has an edge from the family)
+func isSkipCountFamily(ph *ssa.Phi, fam map[ssa.Value]bool) bool {
+	for _, e := range ph.Edges {
+		if fam[e] {
+			return true
+		}
+	}
+	return false
 }
